@@ -529,10 +529,11 @@ func c08LiteralRoundTrip(cx *explore.Ctx, q run.Query, cons schema.Constraint, c
 	}
 	for _, cd := range cands.List {
 		switch cd.Kind {
-		// (object and map candidates insert the braces only - the items are completed one by one afterwards)
 		case lang.StringCandidateKind, lang.NumberCandidateKind, lang.BoolCandidateKind, lang.ListCandidateKind, lang.SetCandidateKind, lang.TupleCandidateKind:
 		case lang.MapCandidateKind, lang.ObjectCandidateKind:
-			if !isLT {
+			// (where a value is being edited, object and map candidates of a literal value insert the braces
+			// only - the items are completed one by one afterwards; the whole text is offered for a missing value)
+			if !isLT && !strings.Contains(cd.TextEdit.NewText, "=") {
 				continue
 			}
 		default:
